@@ -140,6 +140,75 @@ def run_batch(exes, batch, base_seed, workers):
     return recs, deaths, time.time() - t0
 
 
+M64 = (1 << 64) - 1
+
+
+def mix64(a, b):
+    """the worker's seed derivation (sim/core.h): run seed = mix64(batch base, run index)"""
+    x = (a ^ ((b * 0x9E3779B97F4A7C15) & M64) ^ 0xD1B54A32D192ED03) & M64
+    z = 0
+    for _ in range(2):
+        x = (x + 0x9E3779B97F4A7C15) & M64
+        z = x
+        z = ((z ^ (z >> 30)) * 0xBF58476D1CE4E5B9) & M64
+        z = ((z ^ (z >> 27)) * 0x94D049BB133111EB) & M64
+        z = z ^ (z >> 31)
+    return z
+
+
+def batch_base(base_seed, name, i):
+    return int(hashlib.sha1(("%d/%s/%d" % (base_seed, name, i)).encode()).hexdigest()[:15], 16)
+
+
+def run_list(exe, b, base, indices, timeout=1800):
+    """Executes the runs with the given indices, in this order, in ONE fresh worker process; returns the list of signatures
+    (evhash+status+schedule) in that order, or None when the worker died."""
+    cmd = list(b.get("wrapper") or []) + [exe, "run", "--scenario", b["scenario"], "--seed-base", str(base), "--list", ",".join(str(i) for i in indices),
+           "--backend", b["backend"], "--variant", b["variant"], "--samples", "0"]
+    if ORACLES:
+        cmd += ["--oracles", ",".join(ORACLES)]
+    for k, v in sorted(b.get("opts", {}).items()):
+        cmd += ["--opt", "%s=%s" % (k, v)]
+    env = dict(os.environ)
+    env.update(b.get("env", {}))
+    env.update(WORKER_ENV)
+    with WORKER_SLOTS:
+        try:
+            p = subprocess.run(cmd, stdout=subprocess.PIPE, stderr=subprocess.PIPE, timeout=timeout, env=env)
+        except subprocess.TimeoutExpired:
+            return None
+    sigs = []
+    for line in p.stdout.decode(errors="replace").splitlines():
+        if line.startswith("{"):
+            try:
+                x = json.loads(line)
+            except ValueError:
+                continue
+            sigs.append(x["evhash"] + x["status"] + x["sched_hash"])
+    return sigs if len(sigs) == len(indices) else None
+
+
+def history_dependence(exe, b, base, idx):
+    """Is run number idx deterministic on its own AND deterministic after the runs 0..idx-1 of the same process, with different
+    results?  Then the library carries state from earlier operations of the process into later ones.  Returns the minimised
+    history (list of indices ending in idx) or None."""
+    alone1, alone2 = run_list(exe, b, base, [idx]), run_list(exe, b, base, [idx])
+    pre = list(range(0, idx + 1))
+    h1, h2 = run_list(exe, b, base, pre), run_list(exe, b, base, pre)
+    if not alone1 or not alone2 or not h1 or not h2:
+        return None
+    if alone1 != alone2 or h1[-1] != h2[-1] or alone1[0] == h1[-1]:
+        return None
+    # minimise: one earlier run that is enough, else halve the prefix
+    for j in range(idx - 1, -1, -1):
+        t = run_list(exe, b, base, [j, idx])
+        if t and t[-1] != alone1[0]:
+            t2 = run_list(exe, b, base, [j, idx])
+            if t2 == t:
+                return [j, idx]
+    return pre
+
+
 def run_batches(exes, batches, base_seed, total_workers=NCPU):
     """Runs batches concurrently, sharing the worker budget."""
     results = [None] * len(batches)
@@ -151,7 +220,7 @@ def run_batches(exes, batches, base_seed, total_workers=NCPU):
     with cf.ThreadPoolExecutor(max_workers=len(batches)) as ex:
         futs = {}
         for i, b in enumerate(batches):
-            seed = int(hashlib.sha1(("%d/%s/%d" % (base_seed, b.get("name", ""), i)).encode()).hexdigest()[:15], 16)
+            seed = batch_base(base_seed, b.get("name", ""), i)
             b["_base"] = seed
             futs[ex.submit(run_batch, exes, b, seed, alloc[i])] = i
         for f in cf.as_completed(futs):
@@ -353,6 +422,16 @@ def do_replay(path):
     if rp.get("kind") == "batch-statistic":
         log("replaying a batch statistic: re-running the batch")
         return do_check(rp["property"], rp["tier"], rp["seed"], {})
+    if rp.get("kind") == "history":
+        b = {"scenario": rp["scenario"], "backend": rp["backend"], "variant": rp["variant"], "opts": rp.get("opts", {})}
+        alone = run_list(exe, b, rp["base"], [rp["indices"][-1]])
+        hist = run_list(exe, b, rp["base"], rp["indices"])
+        print("replay: run %d alone -> %s ; after run(s) %s in the same process -> %s" % (rp["indices"][-1], alone, rp["indices"][:-1], hist[-1:] if hist else hist))
+        if alone and hist and alone[0] != hist[-1]:
+            print("VIOLATION property=%s replay=%s" % (rp["property"], path))
+            return 1
+        print("replay did not reproduce the recorded violation")
+        return 0
     if rp.get("kind") == "dirty-memory":
         sigs = []
         for fill, env in ((33, "malloc_fill_byte=33:max_malloc_fill_size=1073741824"), (90, "malloc_fill_byte=17:max_malloc_fill_size=1073741824")):
@@ -435,6 +514,7 @@ def do_check(prop, tier, seed, extra):
     # ---- determinism preamble: a sample of seeds of every batch kind is executed twice (1 worker and many workers)
     det = {"seeds": 0, "mismatches": 0}
     dirty = []
+    history_found = []
     if rc_.get("determinism", True):
         det_batches = []
         for b in batches:
@@ -465,6 +545,22 @@ def do_check(prop, tier, seed, extra):
                     h1 = {x["seed"]: sig(x) for x in r1[bi][0]}.get(s_)
                     h3 = {x["seed"]: sig(x) for x in r3[bi][0]}.get(s_)
                     if h1 != h3:
+                        # deterministic given the process history, different with another history?  (r1 ran all sampled seeds of
+                        # the batch in one process in index order)
+                        db_ = det_batches[bi]
+                        order = [x["seed"] for x in r1[bi][0]]
+                        hist = None
+                        if s_ in order and not r1[bi][1] and len(history_found) < 4:
+                            hist = history_dependence(exes[(db_["backend"], db_["variant"])], db_, batch_base(seed, db_.get("name", ""), bi), order.index(s_))
+                        if hist:
+                            history_found.append((db_, bi, hist, s_))
+                            det.setdefault("process_history_dependent", []).append({"batch": db_.get("name"), "seed": s_, "history_indices": hist})
+                            log("PROCESS-HISTORY DEPENDENCE batch %s seed %s: runs %s in one process vs run %d alone" % (db_.get("name"), s_, hist, hist[-1]))
+                            continue
+                        if history_found and len(history_found) >= 4:
+                            det.setdefault("unclassified_after_history_limit", 0)
+                            det["unclassified_after_history_limit"] += 1
+                            continue
                         det["mismatches"] += 1
                         log("DETERMINISM MISMATCH batch %s seed %s" % (det_batches[bi].get("name"), s_))
                     else:
@@ -533,6 +629,12 @@ def do_check(prop, tier, seed, extra):
             violations.append({"dirty": {"batch": b, "seed": s_}})
         else:
             log("note: run %s of batch %s depends on the heap fill pattern (uninitialised read influencing a result): decided by C16" % (s_, b.get("name")))
+    # ---- process-history differential: a run is deterministic alone and deterministic after other runs, with different results
+    for db_, bi, hist, s_ in history_found:
+        if "history" in rc_.get("extra_oracles", []):
+            violations.append({"history": {"batch": db_, "bi": bi, "indices": hist, "seed": s_}})
+        else:
+            log("note: run %s of batch %s depends on what the same process executed before (runs %s): decided by C06" % (s_, db_.get("name"), hist))
     # ---- batch-level oracles (statistics)
     judged = {}
     if "judge" in rc_:
@@ -556,6 +658,29 @@ def do_check(prop, tier, seed, extra):
             json.dump({"property": prop, "kind": "batch-statistic", "tier": tier, "seed": seed, "violation": bs, "tree": th,
                        "variant": batches[0]["variant"], "backend": batches[0]["backend"]}, open(path, "w"), indent=1)
             out_viol.append((path, bs["oracle"] + ": " + bs["detail"]))
+            continue
+        if "history" in v:
+            hv = v["history"]; b = hv["batch"]
+            text = "process-history|%s|%s|%s" % (b["scenario"], b["backend"], b["variant"])
+            k = match_known(known, prop, text)
+            if k:
+                known_hits[k["what"]] = known_hits.get(k["what"], 0) + 1
+                continue
+            base_ = batch_base(seed, b.get("name", ""), hv["bi"])
+            path = os.path.join(OUT, "replays", "%s-history-%s.json" % (prop, hashlib.sha1(("%s%s%s" % (b.get("name"), base_, hv["indices"])).encode()).hexdigest()[:10]))
+            plans = []
+            for ix in hv["indices"]:
+                cmd = [exes[(b["backend"], b["variant"])], "gen", "--scenario", b["scenario"], "--seed", str(mix64(base_, ix)), "--opt", "run_index=%d" % ix]
+                for kk, vv in sorted(b.get("opts", {}).items()):
+                    cmd += ["--opt", "%s=%s" % (kk, vv)]
+                plans.append(subprocess.run(cmd, stdout=subprocess.PIPE).stdout.decode())
+            json.dump({"property": prop, "kind": "history", "scenario": b["scenario"], "backend": b["backend"], "variant": b["variant"], "tree": th,
+                       "opts": b.get("opts", {}), "base": base_, "indices": hv["indices"], "plans": plans, "oracles": ORACLES,
+                       "violation": {"cls": "history-dependent", "oracle": "C06.process-history",
+                                     "detail": "run %d gives one result in a fresh process and another one after run(s) %s of the same process; both are reproducible" % (hv["indices"][-1], hv["indices"][:-1])}},
+                      open(path, "w"), indent=1)
+            if len([x for x in out_viol if "-history-" in x[0]]) < 3:
+                out_viol.append((path, "history-dependent / C06.process-history: batch %s, run %d gives different results alone and after run(s) %s of the same process (both reproducible)" % (b.get("name"), hv["indices"][-1], hv["indices"][:-1])))
             continue
         if "dirty" in v:
             b = v["dirty"]["batch"]
